@@ -27,6 +27,9 @@ type compatResponse struct {
 	h           *protocol.Response
 	header      http.Header
 	writeHeader bool
+	// names of the fields the Response carried when the writer was created: Header() shows (and replaces)
+	// them, but they are only removed from the Response once the header is written
+	preKeys []string
 }
 
 func (c *compatResponse) Header() http.Header {
@@ -50,17 +53,18 @@ func (c *compatResponse) WriteHeader(statusCode int) {
 		// the header has been sent: a superfluous call changes nothing (as in net/http)
 		return
 	}
-	{
-		for k, v := range c.header {
-			for _, vv := range v {
-				if k == consts.HeaderContentLength {
-					continue
-				}
-				c.h.Header.Add(k, vv)
-			}
-		}
-		c.writeHeader = true
+	for _, k := range c.preKeys {
+		c.h.Header.Del(k)
 	}
+	for k, v := range c.header {
+		if k == consts.HeaderContentLength {
+			continue
+		}
+		for _, vv := range v {
+			c.h.Header.Add(k, vv)
+		}
+	}
+	c.writeHeader = true
 
 	c.h.Header.SetStatusCode(statusCode)
 }
@@ -73,15 +77,12 @@ func GetCompatResponseWriter(resp *protocol.Response) http.ResponseWriter {
 	c.h.Header.SetNoDefaultContentType(true)
 
 	h := make(map[string][]string)
-	tmpKey := make([][]byte, 0, c.h.Header.Len())
 	c.h.Header.VisitAll(func(k, v []byte) {
+		if _, seen := h[string(k)]; !seen {
+			c.preKeys = append(c.preKeys, string(k))
+		}
 		h[string(k)] = append(h[string(k)], string(v))
-		tmpKey = append(tmpKey, k)
 	})
-
-	for _, k := range tmpKey {
-		c.h.Header.DelBytes(k)
-	}
 
 	c.header = h
 	return c
